@@ -932,6 +932,14 @@ class C12(ServerProp):
             for bsz in (65464, 32768, 16384):
                 lines.append("multi %s %s srv/huge=gen:140000:5 %s d:huge:%d:1 u:up1:%d:2:gen:%d:9" % (self.root(i), flags, rng.choice(["01", "0011", "10"]), bsz, bsz, 2 * bsz + 17))
                 i += 1
+        # directed: in the middle of its download an endpoint sends requests the server cannot accept (option values out of range): they start
+        # nothing, and the running transfer - the endpoint's own and everybody else's - goes on
+        for flags in ["s", "-", "s1"]:
+            for second in ["d:c:8:1", "u:up1:512:1:gen:700:3"]:
+                lines.append("multi %s %s srv/c=gen:16:3,srv/big=gen:3000:5 %s J:big:512:1 %s" % (self.root(i), flags, rng.choice(["0101", "0011", "0"]), second))
+                i += 1
+                lines.append("multi %s %s srv/c=gen:16:3,srv/big=gen:3000:5 %s J:big:256:3 %s" % (self.root(i), flags, rng.choice(["0101", "001"]), second))
+                i += 1
         # directed (real time, 11 s): a client that is silent for more than ten seconds - well inside the retry budget of its worker (6 x 5 s) -
         # while another client is served, and then goes on: its transfer is not disturbed by the other one (both port modes, both directions)
         for flags in ["s", "-"]:
@@ -999,6 +1007,8 @@ class C12(ServerProp):
             p = spec.split(":")
             if p[0] == "D":
                 p[0] = "d"       # a download whose request datagram was sent twice: the same outcome is due
+            if p[0] == "J":
+                p[0] = "d"       # a download whose endpoint sends unacceptable requests in the middle of it: the same outcome is due
             if p[0] == "U":
                 p[0] = "u"       # an upload whose client lost the first acknowledgement of every window: the same outcome is due
             if p[0] == "m":
